@@ -147,7 +147,9 @@ Record api_case := {
   a_v0 : Z; a_init : objects;
   a_ops : list aop;
   a_final : objects; a_finalver : Z;
-  a_conc : bool
+  a_conc : bool;
+  a_holds : list (Z * Z)   (* real cluster only: stamps between which a further member held the cluster config
+                              lock, taken through Server.Lock like a mutating handler does *)
 }.
 
 Definition is_succ (o : aop) : bool :=
@@ -238,6 +240,10 @@ Fixpoint win_hi (f : aop) (i : nat) (l : list (nat * aop)) : nat :=
 (** answers of the custom-data API on the unchanged code: 200 / 201, or 503 (kind or item exists / is missing:
     the handlers report every store error through ClusterPanic) *)
 Definition is_custom (r : req) : bool := match r with RCustom => true | _ => false end.
+(** DELETE /status/members/{member}: takes the cluster lock, touches neither objects nor version; 200, or 404
+    when the member has no lease *)
+Definition is_purge (r : req) : bool := match r with RNoop => true | _ => false end.
+Definition purge_status_ok (f : aop) : bool := (o_status f =? 200) || (o_status f =? 404).
 Definition custom_status_ok (f : aop) : bool :=
   (o_status f =? 200) || (o_status f =? 201) || (o_status f =? 503).
 
@@ -252,7 +258,8 @@ Definition explains (st : store) (f : aop) : bool :=
   | RFail c => o_status f =? c
   | RRead None => o_status f =? 404
   | RRead (Some (k, b)) => (o_status f =? 200) && String.eqb k (o_rkind f) && String.eqb b (o_rbody f)
-  | RNoopDone => is_custom (o_req f) && custom_status_ok f   (* identity on objects and version *)
+  | RNoopDone => (is_custom (o_req f) && custom_status_ok f) || (is_purge (o_req f) && purge_status_ok f)
+                 (* identity on objects and version *)
   | _ => false
   end.
 
@@ -302,8 +309,19 @@ Definition api_succ (c : api_case) : list (nat * aop) :=
 Definition api_parts (c : api_case) : list (nat * aop) :=
   filter (fun x => is_part (snd x) && negb (is_succ (snd x))) (index_from 0 (a_ops c)).
 
+(** the request went through the critical section (it needs the cluster lock and was answered from inside) *)
+Definition locked_done (f : aop) : bool :=
+  negb (o_bad f) && negb (is_get (o_req f)) && (o_status f <? 500).
+
+(** no request that needs the lock starts and completes while another member holds it *)
+Definition holds_ok (c : api_case) : bool :=
+  forallb (fun '(acq, rel) =>
+             forallb (fun f => negb (locked_done f && (acq <? o_call f) && (o_ret f <? rel))) (a_ops c))
+          (a_holds c).
+
 Definition api_prop (c : api_case) : bool :=
   let succ := api_succ c in
+  holds_ok c &&
   (* versions of the successes: v0+1, v0+2, ... each once - whether or not a fault hit the request *)
   list_eqb Z.eqb (map (fun x => o_ver (snd x)) succ) (zseq (a_v0 c + 1) (List.length succ)) &&
   existsb (seq_check c) (candidates succ (api_parts c)).
@@ -352,7 +370,7 @@ Definition res_matches (r : option result) (f : aop) : bool :=
   | Some (RRead None) => o_status f =? 404
   | Some (RRead (Some (k, b))) => (o_status f =? 200) && String.eqb k (o_rkind f) && String.eqb b (o_rbody f)
   | Some (RErr _) => is_err f
-  | Some RNoopDone => is_custom (o_req f) && custom_status_ok f
+  | Some RNoopDone => (is_custom (o_req f) && custom_status_ok f) || (is_purge (o_req f) && purge_status_ok f)
   | _ => false
   end.
 
